@@ -10,6 +10,7 @@ oracle         generated functions with declared-only variables (x: T) and condi
 import json
 
 import core
+import m2corr
 import pylite
 import progrun
 import pyprog
@@ -59,6 +60,8 @@ def run(chk):
     import ptera
     from ptera import ABSENT
     from ptera.transform import PteraNameError
+    m2corr.ast_leg(chk, 100 if chk.tier == "quick" else 2000, weights={"decl": 4})
+    m2corr.exec_leg(chk, 100 if chk.tier == "quick" else 2000, weights={"decl": 3}, probes=False)
     rng = chk.rng
     chk.cov["rule"] = (
         "generated functions (C01's program space) with 1-3 declarations without value and expressions that "
@@ -75,7 +78,7 @@ def run(chk):
         args, script, gscript = progrun.gen_inputs(rng, fn)
         stats["programs"] += 1
         names = pylite.bound_names(fn)
-        for mode in ("tooled", "some", "enter"):
+        for mode in ("tooled", "some", "enter", "total"):
             supplied = {v: rng.randrange(100, 200) for v in decls if rng.random() < 0.5}
             twin_src = pylite.render(fn, decl=lambda v: ("%s = %d" % (v, supplied[v])) if v in supplied
                                      else "_decl_fail(%r)" % v)
@@ -93,12 +96,21 @@ def run(chk):
                     env = dict(mod.__dict__); env[fn["name"]] = f
                 else:
                     env = mod.__dict__
+                    ptype = None
                     if mode == "some" and names:
                         k = rng.sample(names, rng.randrange(1, min(3, len(names)) + 1))
+                        if decls and rng.random() < 0.5:
+                            # a declared variable as a context capture of another variable's probe
+                            k = [rng.choice(decls)] + [x for x in k if x not in decls][:2]
                         sel = "%s(%s) > %s" % (fn["name"], ", ".join(k[:-1]), k[-1]) if len(k) > 1 else "%s > %s" % (fn["name"], k[0])
+                    elif mode == "total" and (names or decls):
+                        # a cumulative probe: reports once, when the call ends, whatever was captured
+                        k = ([rng.choice(decls)] if decls else []) + rng.sample(names, min(len(names), 2))
+                        sel = "%s(%s)" % (fn["name"], ", ".join(dict.fromkeys(k)))
+                        ptype = "total"
                     else:
                         sel = "%s > #enter" % fn["name"]
-                    p = ptera.probing(sel, env=env)
+                    p = ptera.probing(sel, env=env, probe_type=ptype)
                     p.subscribe(events.append)
                     probes.append(p)
                 for v, val in supplied.items():
@@ -146,13 +158,16 @@ def run(chk):
             chk.dist("mode:" + mode); chk.dist("twin:" + want["outcome"][0] + (":" + want["outcome"][1] if want["outcome"][0] == "exc" else ""))
             replay = {"source": src, "mode": mode, "supplied": supplied, "args": args, "script": script,
                       "gen_script": gscript, "twin": want, "instrumented": got}
-            if g != w:
+            multi = mode == "total" and isinstance(g.get("outcome"), list) and g["outcome"][:2] == ["exc", "ValueError"] \
+                and "Multiple values" in str(g["outcome"][2:])
+            if g != w and not multi:
                 chk.violation("oracle", "mode %s, supplied %s: the call does not behave as the declared semantics says "
                               "(twin %s / got %s)" % (mode, supplied, str(w.get("outcome"))[:80],
                                                       str(g.get("outcome", g))[:120]), replay)
             if err_info:
                 if not err_info.get("function_ok") or not isinstance(err_info.get("info"), dict) \
-                        or err_info["info"].get("provenance") != "body":
+                        or err_info["info"].get("provenance") != (
+                            "argument" if err_info.get("name") in fn["params"] else "body"):
                     chk.violation("oracle", "PteraNameError does not identify the variable / function / provenance: %r" % err_info, replay)
             leak = any(contains_absent(list(e.values()), ABSENT) for e in events if isinstance(e, dict))
             if leak or '{"obj": "Named"}' in json.dumps(got):
